@@ -69,43 +69,57 @@ structure TRes where
   writes : List String
   deriving Repr, DecidableEq
 
+/-- one TrafficRouting reconcile before the API server decides whether the object is still there -/
+structure TCore where
+  t : TRO
+  net : Net
+  mem : Mem
+  requeue : Bool
+  err : Bool
+  finalised : Bool
+  writes : List String
+  deriving Repr, DecidableEq
+
 /-- `TrafficRoutingReconciler.Reconcile` for an existing object -/
-def trReconcile (t : TRO) (n : Net) (m : Mem) : TRes :=
+def trCore (t : TRO) (n : Net) (m : Mem) : TCore :=
   -- handleFinalizer at the top only registers the finalizer of a live object
   let t1 := if ¬ t.deleting ∧ ¬ t.hasFinalizer then { t with hasFinalizer := true } else t
   let phase := if t1.deleting then TRSM.Phase.terminating else if t1.phase = .empty then .initial else t1.phase
-  let keep (t' : TRO) (n' : Net) (m' : Mem) (rq err fin : Bool) (ws : List String) : TRes :=
-    { tr := stored t', net := n', mem := m', requeue := rq, err := err, finalised := fin, writes := ws }
   match phase with
   | .initial =>
     -- InitializeTrafficRouting: nothing to check without a ref; otherwise the Service and the Ingress must exist
-    if t1.hasRef ∧ (¬ n.stableExists ∨ ¬ n.stableIngress) then keep t1 n m false true false []
-    else keep { t1 with phase := .healthy } n m false false false []
+    if t1.hasRef ∧ (¬ n.stableExists ∨ ¬ n.stableIngress) then ⟨t1, n, m, false, true, false, []⟩
+    else ⟨{ t1 with phase := .healthy }, n, m, false, false, false, []⟩
   | .healthy =>
-    keep { t1 with phase := if t1.holders.length > 0 then .progressing else .healthy } n m false false false []
+    ⟨{ t1 with phase := if t1.holders.length > 0 then .progressing else .healthy }, n, m, false, false, false, []⟩
   | .progressing =>
-    if t1.holders.length = 0 then keep { t1 with phase := .finalizing } n m false false false []
+    if t1.holders.length = 0 then ⟨{ t1 with phase := .finalizing }, n, m, false, false, false, []⟩
     else
       let o := doTrafficRouting (tctx t1) n m
-      if o.err then keep t1 o.net o.mem false true false o.writes
-      else if ¬ o.done then keep t1 o.net o.mem true false false o.writes
-      else keep { t1 with phase := .progressing } o.net o.mem false false false o.writes
+      if o.err then ⟨t1, o.net, o.mem, false, true, false, o.writes⟩
+      else if ¬ o.done then ⟨t1, o.net, o.mem, true, false, false, o.writes⟩
+      else ⟨{ t1 with phase := .progressing }, o.net, o.mem, false, false, false, o.writes⟩
   | .finalizing =>
     let o := finalisingTrafficRouting (tctx t1) n m
-    if o.err then keep t1 o.net o.mem false true false o.writes
-    else if ¬ o.done then keep t1 o.net o.mem true false false o.writes
-    else keep { t1 with phase := .healthy } o.net o.mem false false true o.writes
+    if o.err then ⟨t1, o.net, o.mem, false, true, false, o.writes⟩
+    else if ¬ o.done then ⟨t1, o.net, o.mem, true, false, false, o.writes⟩
+    else ⟨{ t1 with phase := .healthy }, o.net, o.mem, false, false, true, o.writes⟩
   | .terminating =>
     let o := finalisingTrafficRouting (tctx t1) n m
-    if o.err then keep t1 o.net o.mem false true false o.writes
-    else if ¬ o.done then keep t1 o.net o.mem true false false o.writes
+    if o.err then ⟨t1, o.net, o.mem, false, true, false, o.writes⟩
+    else if ¬ o.done then ⟨t1, o.net, o.mem, true, false, false, o.writes⟩
     else
       -- handleFinalizer again: remove the own finalizer of an object in deletion (register it otherwise); whatever
       -- progressing finalizers are left.  The status update then finds the object or not
       let t2 := if t1.deleting then { t1 with hasFinalizer := false } else { t1 with hasFinalizer := true }
-      if isGone t2 then keep t2 o.net o.mem false (decide (t1.phase ≠ .terminating)) true o.writes
-      else keep { t2 with phase := .terminating } o.net o.mem false false true o.writes
-  | _ => keep { t1 with phase := phase } n m false false false []
+      if isGone t2 then ⟨t2, o.net, o.mem, false, decide (t1.phase ≠ .terminating), true, o.writes⟩
+      else ⟨{ t2 with phase := .terminating }, o.net, o.mem, false, false, true, o.writes⟩
+  | _ => ⟨{ t1 with phase := phase }, n, m, false, false, false, []⟩
+
+/-- … and what the API server keeps of it -/
+def trReconcile (t : TRO) (n : Net) (m : Mem) : TRes :=
+  let c := trCore t n m
+  { tr := stored c.t, net := c.net, mem := c.mem, requeue := c.requeue, err := c.err, finalised := c.finalised, writes := c.writes }
 
 /-! ### the Rollout side of the protocol -/
 
